@@ -157,7 +157,15 @@ def run(ctx):
             if only and s != only:
                 continue
             for i, sd in enumerate(seeds):
-                jobs.append((s, sd, rounds, procs[i % len(procs)]))
+                n = rounds
+                if thorough and s == "writergrow":
+                    n = 30       # partition counts grow by 384 per round: more rounds only make metadata answers huge
+                if thorough and s == "readerrebalance":
+                    n = 150      # ≈ 0.5 s per round (real rebalances)
+                jobs.append((s, sd, n, procs[i % len(procs)]))
+                if thorough and s == "writergrow":
+                    for extra in range(1, 6):
+                        jobs.append((s, sd + 7 * extra, n, procs[(i + extra) % len(procs)]))
         if only:  # a replay: races are schedule dependent — repeat the observation
             jobs = jobs * 12
 
